@@ -53,11 +53,6 @@ Proof. unfold props_meta. induction ps as [|[k p] r IH]; cbn; [constructor|].
   - destruct (valid_prop_dtype (a_dt a) && negb (k =? "")); inversion E; subst. repeat split.
   - destruct (forallb _ r0); [|discriminate]. destruct (valid_prop_dtype (v_dt e0) && negb (k =? "")); inversion E; subst. repeat split. Qed.
 
-Lemma pm_haskey_alookup {V} k (d : list (string * V)) :
-  (fix has (d : list (string * V)) := match d with [] => false | (k', _) :: r => String.eqb k k' || has r end) d
-  = match alookup k d with Some _ => true | None => false end.
-Proof. induction d as [|[k' v] r IH]; [reflexivity|]. cbn. destruct (String.eqb k k'); [reflexivity | exact IH]. Qed.
-
 Lemma pm_haskey_spec k d : Meta.pm_haskey k d = match alookup k d with Some _ => true | None => false end.
 Proof. induction d as [|[k' v] r IH]; [reflexivity|]. cbn. destruct (String.eqb k k'); [reflexivity | exact IH]. Qed.
 
